@@ -57,6 +57,9 @@ def python_side(run: Run):
         allowed = ALLOW_PY.get(key)
         run.results.append(Result(f"det.py:{x.where}@L{x.lineno}", "discharged" if allowed else "open", "det-walk", 0, "structural",
                                   detail=(f"allowed: {allowed}" if allowed else f"{x.what}: {x.code}"), group=f"det.py:{x.where}"))
+    # the plugin's entry point hands back the response: it must not be among the functions whose result carries hash order
+    run.table("det.py:entry-point-result-carries-no-hash-order", not ({"get_response", "generate"} & tainted), detail=str(sorted({"get_response", "generate"} & tainted)),
+              group="det.py:entry-point")
     run.table("det.py:functions-analysed", nfun > 250, detail=str(nfun), group="det.py:cover")
     # environment reads
     env_hits = []
